@@ -113,6 +113,16 @@ def _cfgs(tier, rng):
             c["mix"] = "pure"
             c["model"] = "xc1"
             cfgs.append(c)
+    # far-apart fragments in several grid blocks (sparse AO path of pyscf + strided per-block views of the potential)
+    fars = [dict(family="vj-mgga", spin="rks", far=("LiH", "HF", 14.0), plan_type="gaussian", interp="onsite_direct"),
+            dict(family="vi-gga", spin="uks", far=("NH2", "HF", 16.0), plan_type="spline", interp="onsite_spline"),
+            dict(family="sl-npa", spin="rks", far=("H2O", "HF", 14.0)),
+            dict(family="vk-mgga", spin="rks", far=("HF", "HF", 20.0), plan_type="gaussian", interp="onsite_spline")]
+    for rep in range(reps):
+        for m in fars[:2] if tier == "quick" else fars:
+            cfgs.append(dict(m, mol="far", basis="6-31g", level=int(rng.integers(0, 2)), mode="SEP", evaluator="rbf",
+                             mix="xmix" if m["family"].endswith("gga") and not m["family"].endswith("mgga") else "pure",
+                             model="xc1", max_memory=[0.05, 0.2][rep % 2]))
     return cfgs
 
 
@@ -121,7 +131,7 @@ def gen_cases(tier, seed):
     cases = []
     for i, c in enumerate(_cfgs(tier, rng)):
         nl = c["family"] in NL or c["family"] == "vj+sdmx"
-        cases.append({"id": "c%03d-%s-%s" % (i, c["family"], c["spin"]), "cfg": c, "seed": seed, "idx": 100 + i,
+        cases.append({"id": "c%03d-%s-%s%s" % (i, c["family"], c["spin"], "-far" if c.get("far") else ""), "cfg": c, "seed": seed, "idx": 100 + i,
                       "_threads": 2, "_weight": 4.0 if nl else 1.0, "_timeout": 1500})
     return cases
 
@@ -132,7 +142,19 @@ def run_case(case, rec):
     from vlib import gen
     cfg = case["cfg"]
     rng = rng_for(case["seed"], PROP_NO, case["idx"])
-    mol, model, ks = gen.build_ks(cfg, rng)
+    if cfg.get("far"):
+        # two fragments far apart, integrated in several blocks (small max_memory): pyscf then takes its screened
+        # (sparse) AO path for blocks that see only one fragment, and the per-block potential views are strided
+        a, b, dist = cfg["far"]
+        d = float(dist) + float(rng.uniform(-0.5, 0.5))
+        atoms = list(gen.MOLS[a][0]) + [(s_, (x + d, y + 0.7, z - 0.4)) for s_, (x, y, z) in gen.MOLS[b][0]]
+        sp = (gen.MOLS[a][1] + gen.MOLS[b][1]) % 2 if cfg["spin"] == "uks" else 0
+        mol0 = gen.make_mol(None, cfg["basis"], rng, jitter=0.03, atoms=atoms, spin=sp, charge=0)
+        mol, model, ks = gen.build_ks(cfg, rng, mol=mol0, model=gen.build_model(cfg, rng))
+        rec.tag("system", "far-apart fragments, max_memory=%g" % cfg["max_memory"])
+    else:
+        mol, model, ks = gen.build_ks(cfg, rng)
+    mm = {"max_memory": cfg["max_memory"]} if cfg.get("max_memory") else {}
     nspin = 1 if cfg["spin"] == "rks" else 2
     dm = gen.psd_dm(mol, rng, nspin)
     if cfg.get("empty_beta"):
@@ -147,7 +169,7 @@ def run_case(case, rec):
         if cfg.get(k) is not None:
             rec.tag(k, cfg[k])
     rec.tag("integrator", type(ks._numint).__name__)
-    n, e, v = gen.nr_eval(ks, dm)
+    n, e, v = gen.nr_eval(ks, dm, **mm)
     v = np.asarray(v)
     rec.require("finite", np.all(np.isfinite(v)) and np.all(np.isfinite(e)), mechanism="nr_%s:nonfinite" % cfg["spin"])
     # hermiticity
@@ -165,7 +187,7 @@ def run_case(case, rec):
     ni = ks._numint
     xm = ni.xmix
     ni.xmix = 0.0
-    e0 = gen.nr_eval(ks, dm)[1]
+    e0 = gen.nr_eval(ks, dm, **mm)[1]
     ni.xmix = xm
     ml_share = abs(e - e0) / max(abs(e), 1e-300)
     rec.note("ml_share", float(ml_share))
@@ -190,7 +212,7 @@ def run_case(case, rec):
             h = 3e-4 * np.linalg.norm(dm[s] if nspin == 2 else dm)
 
             def E(t):
-                return float(gen.nr_eval(ks, dm + t * DD)[1])
+                return float(gen.nr_eval(ks, dm + t * DD, **mm)[1])
             d1 = (E(h) - E(-h)) / (2 * h)
             d2 = (E(h / 2) - E(-h / 2)) / h
             est = (4 * d2 - d1) / 3
